@@ -80,6 +80,31 @@ theorem subFromBytes_isSome_iff (b : List UInt8) :
   rw [Option.isSome_iff_exists]
   exact exists_congr fun p => subFromBytes_eq_some_iff b p
 
+/-! ## Small-order points are not torsion free -/
+
+theorem gcd_eight_L : Nat.gcd 8 L = 1 := by decide +kernel
+
+/-- In the group: `8·Q = 0` and `ℓ·Q = 0` force `Q = 0` (`gcd(8, ℓ) = 1`). -/
+theorem eq_zero_of_eight_of_L {Q : Ed} (h8 : 8 • Q = 0) (hL : L • Q = 0) : Q = 0 := by
+  have d8 := addOrderOf_dvd_of_nsmul_eq_zero h8
+  have dL := addOrderOf_dvd_of_nsmul_eq_zero hL
+  have d1 := Nat.dvd_gcd d8 dL
+  rw [gcd_eight_L, Nat.dvd_one] at d1
+  exact AddMonoid.addOrderOf_eq_one_iff.1 d1
+
+/-- A canonical curve point of small order other than the identity is not torsion free. -/
+theorem not_torsionFree_of_smallOrder {p : Pt} (hp : onCurve p = true) (cp : Canon p)
+    (h8 : isSmallOrder p = true) (hne : p ≠ Pt.zero) : isTorsionFree p = false := by
+  rw [← Bool.not_eq_true]
+  intro hL
+  have h0 := eq_zero_of_eight_of_L ((isSmallOrder_iff hp).1 h8) ((isTorsionFree_iff hp).1 hL)
+  have := (isIdentity_iff hp cp).2 h0
+  unfold isIdentity at this
+  exact hne (beq_iff_eq.1 this)
+
+/-- The basepoint is torsion free (`[ℓ]B = 0`, `Bridge/Order.lean`). -/
+theorem isTorsionFree_B : isTorsionFree B = true := (isTorsionFree_iff onCurve_B).2 L_nsmul_Bpt
+
 /-! ## The extended-coordinate forms executed by the driver -/
 
 /-- `EPt.decompress` followed by `toAffine` is the specification `decompress`. -/
